@@ -328,6 +328,23 @@ def run(ctx):
         ctx.ob("R6", "%s|ends with set_loss_detection_timer" % b.short, ok, b.where(),
                "every path from %s to return re-arms the timer (calls at %s): %s — without it ack-eliciting packets still in "
                "flight are neither declared lost nor probed" % ("the anchor call" if anchor_rx else "entry", st, ok))
+    # ---------------------------------------------------------------- R8
+    ctx.rule("R8", "once per round trip: the sent_time that OnCongestionEvent compares with congestion_recovery_start_time is a "
+                   "packet's send time on every call chain (interprocedural backward slice of the argument) — never the current time")
+    sites = prog.call_sites(r"NewReno::on_congestion_event$")
+    ctx.floor("R8", "call sites of on_congestion_event", len(sites), 2)
+    for (b, i, t) in sites:
+        ctx.touch(b)
+        if len(t["args"]) < 2:
+            continue
+        srcs = value_sources(prog, b, t["args"][1])
+        nows = sorted(set("%s in %s" % (x[1], x[2]) for x in srcs if x[0] == "call" and re.search(r"[Ii]nstant::now$", x[1])))
+        ends = sorted(set(("%s()" % x[1].split("::")[-1] if x[0] == "call" else ".".join(place_fields(x[1])) or "local") + " in " + x[2].split("::")[-1]
+                          for x in srcs if x[0] in ("call", "place")))
+        ctx.ob("R8", "%s|sent_time of the congestion event is not the current time" % b.short, bool(srcs) and not nows, b.where(t["line"]),
+               "slice of the argument ends at: %s; Instant::now() among them: %s — in_congestion_recovery(sent_time) is "
+               "`sent_time <= recovery_start`; the current time is always later, so every ECN-CE increase or loss report would "
+               "shrink the window again within the same round trip" % (ends[:8], nows or "no"))
     # ---------------------------------------------------------------- R7
     ctx.rule("R7", "a packet is declared lost only if it is still in flight and (sent before the time threshold or at least "
                    "packet_threshold packets older than the largest acknowledged): the state write is reachable only through "
